@@ -1,9 +1,35 @@
 import Driver.Json
-open Lean Drv
+import Driver.C07
+import Model.Tpt
+open Lean Drv Ens Ens.Tpt
 
 namespace Drv.C08
+open Drv.C07 (getMat getVec vecJson matJson errStr)
 
-def handle (op : String) (_req : Json) : Except String Json :=
-  throw s!"bad-op C08.{op}"
+/-- `tpt`: everything `tpt.py` computes for one `(T, sources, sinks, populations)`:
+forward committors, reactive fluxes, net fluxes, reactive populations.  `pi` absent means
+`populations=None` (the exact stand-in for `eq_probs` is used). -/
+def handle (op : String) (req : Json) : Except String Json := do
+  match op with
+  | "tpt" =>
+    let (n, T) ← getMat (← field req "T")
+    let so ← getList getNat (← field req "sources")
+    let si ← getList getNat (← field req "sinks")
+    let pi ← match fieldOpt req "pi" with
+      | some j => do let v ← getVec n j; pure (Except.ok v)
+      | none => pure (eqProbs n T)
+    match pi with
+    | .error e => pure (errJson (errStr e))
+    | .ok p =>
+      match reactiveFluxes n T so si p, netFluxes n T so si p with
+      | .ok f, .ok g =>
+        let pop := match reactivePopulations n T so si p with
+          | .ok r => vecJson n r
+          | .error e => errJson (errStr e)
+        pure (okJson (Json.mkObj [("pi", vecJson n p), ("flux", matJson n n f),
+                                  ("net", matJson n n g), ("pop", pop)]))
+      | .error e, _ => pure (errJson (errStr e))
+      | _, .error e => pure (errJson (errStr e))
+  | _ => throw s!"bad-op C08.{op}"
 
 end Drv.C08
